@@ -201,4 +201,71 @@ theorem sexec_ok (user : Nat → SUser) (sched : List Nat) :
   | nil => intro c h; exact h
   | cons t ts ih => intro c h; exact ih _ (sstep_ok user t c h)
 
+/-! ### per-call evaluation context -/
+
+structure XOk (prog : List Nat) (cellv : Nat) (th : XTh) : Prop where
+  order : th.res ++ (match th.pc with
+      | .idle => []
+      | .store v => [v]
+      | .eval _ => [cellv]
+      | .read => [cellv]) ++ th.vals = prog
+
+theorem xstep_ok (gap : Nat) (prog : Nat → List Nat) (t : Nat) (c : XCfg)
+    (h : ∀ x, XOk (prog x) (c.cell (x + 1)) (c.th x)) :
+    ∀ x, XOk (prog x) ((xstep false gap t c).cell (x + 1)) ((xstep false gap t c).th x) := by
+  intro x
+  have ht := (h t).order
+  by_cases hx : x = t
+  · subst hx
+    unfold xstep
+    simp only [Bool.false_eq_true, if_false]
+    split
+    · split
+      · exact h x
+      · rename_i hp _ v r hv
+        rw [hp, hv] at ht
+        exact ⟨by simpa [upd] using ht⟩
+    · rename_i v hp
+      rw [hp] at ht
+      exact ⟨by simpa [upd] using ht⟩
+    · rename_i k hp
+      rw [hp] at ht
+      exact ⟨by simpa [upd] using ht⟩
+    · rename_i hp
+      rw [hp] at ht
+      exact ⟨by simpa [upd] using ht⟩
+    · rename_i hp
+      rw [hp] at ht
+      exact ⟨by simpa [upd] using ht⟩
+  · have hne : x + 1 ≠ t + 1 := by omega
+    have hcell : (xstep false gap t c).cell (x + 1) = c.cell (x + 1) := by
+      unfold xstep
+      simp only [Bool.false_eq_true, if_false]
+      split
+      · split <;> rfl
+      · simp [upd, hx]
+      · rfl
+      · rfl
+      · rfl
+    have hth : (xstep false gap t c).th x = c.th x := by
+      unfold xstep
+      simp only [Bool.false_eq_true, if_false]
+      split
+      · split
+        · rfl
+        · simp [upd, hx]
+      · simp [upd, hx]
+      · simp [upd, hx]
+      · simp [upd, hx]
+      · simp [upd, hx]
+    rw [hcell, hth]
+    exact h x
+
+theorem xexec_ok (gap : Nat) (prog : Nat → List Nat) (sched : List Nat) :
+    ∀ c : XCfg, (∀ x, XOk (prog x) (c.cell (x + 1)) (c.th x)) →
+      ∀ x, XOk (prog x) ((xexec false gap sched c).cell (x + 1)) ((xexec false gap sched c).th x) := by
+  induction sched with
+  | nil => intro c h; exact h
+  | cons t ts ih => intro c h; exact ih _ (xstep_ok gap prog t c h)
+
 end XsVerif.Threads.Cache
